@@ -118,6 +118,10 @@ func main() {
 				pk := os.Args[3]
 				r = ruleSiblingAppend(c, func(f string) bool { return strings.Contains(f, pk) })
 			}
+			if len(os.Args) > 3 && os.Args[2] == "makeappend" {
+				pk := os.Args[3]
+				r = ruleMakeAppend(c, func(f string) bool { return strings.Contains(f, pk) })
+			}
 			if len(os.Args) > 2 && os.Args[2] == "makecap" {
 				r = ruleMakeCapAny(c, func(string) bool { return true })
 			}
